@@ -309,6 +309,8 @@ def finish(ctx: Ctx) -> int:
     print(f"[{ctx.pid}] tier={ctx.tier} seed={ctx.seed} evaluations={ctx.evaluations} "
           f"distinct_nontrivial={len(ctx.distinct)} wall={wall:.1f}s")
     print(f"[{ctx.pid}] observed: {top}")
+    for key, n in sorted(seen_facts.items(), key=lambda kv: -kv[1])[:25]:
+        print(f"[{ctx.pid}] mechanism x{n}: {key}")
     if new:
         print(f"[{ctx.pid}] VIOLATED: {len(new)} unlisted violation(s) ({len(seen_facts)} distinct mechanism(s))")
         return 1
